@@ -283,9 +283,9 @@ def run(ctx):
                             judge(ctx, t, mode, text, "idiom")
         ctx.cls("idiom:" + fname)
     # ---- operand KINDS: every pair of arithmetic / comparison operators, both nestings, with every
-    # pattern of 7 operand kinds at the three leaves: grouping must not depend on what the operands are
+    # pattern of 9 operand kinds (null among them) at the three leaves: grouping must not depend on what the operands are
     kinds = [T.ident("v"), T.I(7), T.lit("float", "1.5"), T.lit("duration", "P1DT2H"), T.S("s"),
-             T.lit("datetime", "2020-01-01T00:00:00Z"), T.call("now"), T.lit("duration", "-PT12H")]
+             T.lit("datetime", "2020-01-01T00:00:00Z"), T.call("now"), T.lit("duration", "-PT12H"), T.lit("null", "null")]
     ar = ("add", "sub", "mul", "div", "mod", "eq", "lt", "ge")
     for o1 in ar:
         for o2 in ar:
